@@ -322,6 +322,14 @@ func init() {
 	})
 }
 
+func stridedTrees(ts []*doc.Tree, k int) []*doc.Tree {
+	var out []*doc.Tree
+	for i := 0; i < len(ts); i += k {
+		out = append(out, ts[i])
+	}
+	return out
+}
+
 func stratum(xs []gen.Expr, k int) []gen.Expr {
 	var out []gen.Expr
 	for i := 0; i < len(xs); i += k {
@@ -422,6 +430,10 @@ func c12Spaces(tier string) []*explore.Space {
 		exprSpace("O3xT3", "flat paths with boolean / leading positional predicates x T(<=3)", o3, t3, seq),
 		protoSpace("R1xT3", "iterator protocol + Evaluate/count/reverse relations: S1, S2/16, P1/4, U2/4 slices x T(<=3)", append(append(append(append(append([]gen.Expr{}, s1...), stratum(s2, 16)...), stratum(p1, 4)...), stratum(u2, 4)...), wrapped...), t3, false),
 		protoSpace("R2xT2", "every word over {MoveNext,Current} of length <= len+3 x T(<=2)", wordExprs, t2, true),
+		protoSpace("R3xWide5", "iterator protocol + Evaluate/count/reverse relations on sequences of 5+ nodes: S1 and wrappers x one parent with 5 children, spines of depth 4..6", append(append([]gen.Expr{}, stratum(s1, 2)...), stratum(wrapped, 3)...), func() []*doc.Tree {
+			return append(append([]*doc.Tree{}, stridedTrees(uniWide(5), 9)...), stridedTrees(uniDeep(6), 7)...)
+		}, false),
+		exprSpace("O1xWide5", "flat paths <= 2 steps x one parent with 5 children: document order", asExprs(flatPaths(2)), func() []*doc.Tree { return uniWide(5) }, seq),
 	}
 }
 
@@ -430,7 +442,7 @@ func init() {
 		ID: "C12", Level: "model_checking",
 		Rule: "order part: every flat path (child/attribute/self steps, <= 3-4 steps, relative and absolute, also with the predicates C02/C03 allow) and every single predicate-free descendant step, on every document of T(<=N) and the multi-parent universe from every context, must yield exactly the reference sequence (document order, no repeats) through Select and through Evaluate. protocol part: the NodeIterator of every node-set expression of the slices S1, S2, P1, U2 is explored as a state machine — states are (results consumed, exhausted) positions, transitions are MoveNext/Current calls; the walk with 3 extra MoveNext after the first false, and (R2) every operation word over {MoveNext, Current} up to length len+3, are checked against the sequence model, plus seq(Evaluate)=seq(Select), count(E)=len, reverse(E)=reversed; non-trivial = non-empty sequence; distinct = distinct expressions",
 		Assumptions:    []string{"hand-written reference evaluator (order part)", "lawful NodeNavigator", "bounded trees; words bounded by len+3"},
-		Budget:         budget(55*time.Second, 15*time.Minute),
+		Budget:         budget(90*time.Second, 15*time.Minute),
 		MinRefOutcomes: 2,
 		Spaces:         c12Spaces,
 	})
